@@ -1033,6 +1033,36 @@ func runC15(c *runCtx) error {
 		h.flatAll(c15FlatOps7, 4, 4)
 	}
 
+	// long flat sequences: runs of ONE operator (what a left-associative parser nests to the left,
+	// however long the run is), runs with one other operator set into them, random long mixtures
+	longLens := []int{6, 7, 8, 9, 12, 16, 20, 33, 64, 130}
+	if !c.thorough() {
+		longLens = []int{7, 8, 9, 16, 33, 130}
+	}
+	for oi, op := range c15FlatOps {
+		for li, n := range longLens {
+			seq := make([]string, n)
+			for i := range seq {
+				seq[i] = op
+			}
+			h.flat(seq, oi+li)
+			if n <= 33 {
+				other := c15FlatOps[(oi+3+li)%len(c15FlatOps)]
+				seq2 := append([]string{}, seq...)
+				seq2[r.intn(n)] = other
+				h.flat(seq2, oi+li+1)
+			}
+		}
+	}
+	for i := 0; i < 40; i++ {
+		n := 6 + r.intn(19)
+		seq := make([]string, n)
+		for j := range seq {
+			seq[j] = c15FlatOps[r.intn(len(c15FlatOps))]
+		}
+		h.flat(seq, i)
+	}
+
 	g := &c15gen{r: r}
 	// raw trees
 	for i := 0; i < nRaw; i++ {
